@@ -3,11 +3,11 @@ CONSTANTS
   Lens = {1, 2}
   NCodes = 3
   MaxDefs = 2
-  Dev_h34 = TRUE
-  Dev_h35 = TRUE
+  Dev_h34 = FALSE
+  Dev_h35 = FALSE
   Emit = TRUE
-  KnownClasses = {"multi.split", "multi.coalesce", "array.split", "array.coalesce"}
+  KnownClasses = {}
   Rich = TRUE
   BaseVal <- BaseMid
-INVARIANTS RefinesExceptKnown SegmentationOK MapsOK DomainOK BuildForm EmitInv
+INVARIANTS Refines RefinesExceptKnown SegmentationOK MapsOK DomainOK BuildForm EmitInv
 CHECK_DEADLOCK FALSE
